@@ -204,6 +204,37 @@ theorem refetch_window_ok (env : Env) (hv : validate env.cfg = true) (t0 : Nat) 
     have := nextAfterOk_bounds env.cfg now ee
     omega
 
+/-- **refetch_before_earliest_expiry.** After a fetch that *succeeds* at `now` in a reachable state of a
+    validated configuration, the next lookup is scheduled no later than `min_expiry_threshold` before the
+    expiry of EVERY cached path – the active one and every spare path a failover may switch to – unless
+    `min_refetch_delay` forbids it: `next_refetch ≤ max(now + min_refetch_delay, expiry − min_expiry_threshold)`.
+    (The harness checks the same bound on the real code: `C06:refetch-window:after-earliest-expiry`, and
+    classifies a sender left without a path between that bound and a later schedule as
+    `C06:without-path:schedule-ignores-spare-expiry`.) -/
+theorem refetch_before_earliest_expiry (env : Env) (hv : validate env.cfg = true) (t0 : Nat) (ops : List Op)
+    (now : Nat) (resp : Resp) (sc0 sc1 : Nat → Int) (ord : List Nat) (b : Nat) (f : List Path)
+    (hok : fetchFiltered env now resp = .ok f) :
+    ∀ e ∈ (fetchAndUpdate env (run env t0 ops) now resp sc0 sc1 ord b).cached, ∀ x, e.expiry = some x →
+      (fetchAndUpdate env (run env t0 ops) now resp sc0 sc1 ord b).nextRefetch ≤
+        max (now + env.cfg.minRefetchDelay) (x * NS - env.cfg.minExpiryThreshold) := by
+  have hf := validate_facts hv
+  have hw := run_wf env t0 ops hf.1
+  have hbad := (fetchAndUpdate_wf env (run env t0 ops) now resp sc0 sc1 ord b hf.1 hw.1).2
+  rw [hw.2] at hbad
+  revert hbad
+  unfold fetchAndUpdate
+  simp only [hok]
+  split
+  · intro h; cases h
+  · next ee hee =>
+    intro _ e he x hx
+    simp only [markInit, reevaluate_nextRefetch, reevaluate_cached, afterOk] at he ⊢
+    have he' := (rank_perm _ _).mem_iff.mp he
+    apply nextAfterOk_le_of_expiry
+    unfold earliestExpiry at hee
+    apply minOpt_le hee
+    exact List.mem_filterMap.mpr ⟨e, he', hx⟩
+
 /-- **never_without_path.** After every fetch executed at `now` in a reachable state: if some cached
     path is valid (more than `min_expiry_threshold` of lifetime left), a sender asking at `now` gets a
     path. -/
@@ -284,6 +315,13 @@ private def envV : Env := { cfg := defaultCfg, src := 1, dst := 2, allowed := fu
 example : sendCached (fetchAndUpdate envV (run envV 0 []) 0 (.ok [pV]) (fun _ => 0) (fun _ => 0) [] 0) 0 = some pV := by
   decide
 example : ∃ e, fetchFiltered envV 0 .errOther = .error e := ⟨.other, rfl⟩
+example : ∃ f, fetchFiltered envV 0 (.ok [pV]) = .ok f := by
+  have h : (fetchFiltered envV 0 (.ok [pV])).toBool = true := by decide
+  cases hh : fetchFiltered envV 0 (.ok [pV]) with
+  | ok f => exact ⟨f, rfl⟩
+  | error e => rw [hh] at h; cases h
+example : ∃ e ∈ (fetchAndUpdate envV (run envV 0 []) 0 (.ok [pV]) (fun _ => 0) (fun _ => 0) [] 0).cached,
+    e.expiry = some 5000 := ⟨pV, by decide, rfl⟩
 example : (fetchFiltered envV 0 (.ok [pV])).toBool = true := by decide
 example : (run envT 0 opsT).nextRefetch = 160 * NS ∧ (run envT 0 opsT).active = some pA := by decide
 example : (run envW 0 opsW).im.fifo.length = 4 ∧ (run envW 0 opsW).im.cache.length = 1 := by decide
